@@ -576,7 +576,7 @@ def r7(ctx: Ctx, m):
           # or the emptiness of the ONE container/statistic the class keeps —
           # testing one of several statistics does not make the others empty
           txt = unparse(a.ast)
-          if 'isnan' in txt or len(keep) == 1:
+          if 'isnan' in txt or (len(keep) == 1 and not _tests_one_of_several(m, a.ast, op)):
             return False
       return True
 
@@ -599,6 +599,31 @@ def r7(ctx: Ctx, m):
       ctx.ok(rule, merge, f'{ci.name}.merge writes {sorted(fields)} on every path',
              merge.node)
   ctx.floor(rule, 10, n)
+
+
+def _tests_one_of_several(m, test: ast.AST, op: str) -> bool:
+  """`other.<state>.<stat>`: does the test look INSIDE the operand's state object at
+  one statistic of a state class whose own merge combines several?  (p_trues == 0
+  does not make tp_preds/p_preds empty.)"""
+  for x in ast.walk(test):
+    if isinstance(x, ast.Attribute) and isinstance(x.value, ast.Attribute) and isinstance(
+        x.value.value, ast.Name) and x.value.value.id == op:
+      stat = x.attr
+      cands = []
+      for ci in m.accumulators:
+        mg = ci.methods.get('merge')
+        if mg is None:
+          continue
+        ws = {f for f, hows in m.eff.field_writes(mg).items()
+              if any(how in ('aug', 'assign', 'mutator', 'delegate') for how, _ in hows)}
+        names = {f.lstrip('_') for f in ws} | ws
+        if stat in names or stat.lstrip('_') in names:
+          cands.append(len(ws))
+      if not cands:
+        raise AnalysisError(f'R-C01-7: cannot resolve the state class behind `{unparse(x)}`')
+      if max(cands) > 1:
+        return True
+  return False
 
 
 def _writes_in(m, fi, node, fld, ci, loop=None) -> bool:
@@ -884,6 +909,10 @@ from mlmverif.selfcheck import B, OK  # noqa: E402
 _R = 'aggregates/rolling_stats.py'
 _C = 'aggregates/classification.py'
 VARIANTS = [
+    B('merge-skips-operand-without-ground-truth', 'aggregates/retrieval.py',
+      '  def merge(self, other: ThresholdedRetrieval):\n    self._confusion_matrix.merge(other.confusion_matrix)',
+      '  def merge(self, other: ThresholdedRetrieval):\n    if not other.confusion_matrix.p_trues:\n      return\n    self._confusion_matrix.merge(other.confusion_matrix)',
+      'R-C01-7'),
     B('mean-count-over-whole-batch', _R,
       '        _count=np.sum(~np.isnan(batch), axis=0),\n        _mean=np.nanmean(batch, axis=0),\n        _input_shape=batch.shape if batch.size else (),\n    )',
       '        _count=np.sum(~np.isnan(batch)),\n        _mean=np.nanmean(batch, axis=0),\n        _input_shape=batch.shape if batch.size else (),\n    )',
